@@ -6,7 +6,7 @@ import os
 
 FAMILY = 'StateStore'
 DRIVER = 'statestore'
-HOOK_COMMITS = []   # none needed: fresh child processes give each store its own process globals
+HOOK_COMMITS = ['d67c5e4']   # gate in mavl Tree.Save (between filling the write batch and writing it), C04 concurrent leg
 
 _COMMON_NOTE = ('Roots are abstract terms <<parent, writes>> bound to the hashes the code returns; SHA-256 and LevelDB '
                 'are trusted. TLC bounds of the exhaustive runs: 2 keys x 2 values, write lists <= 2, <= 2 roots, '
@@ -49,8 +49,10 @@ PROPS = {
              'histories are replayed into the real store (plain, prefix; memTree configurations in child processes where '
              'Reopen is a real process restart, graceful or by kill), reading every key at every committed root after every '
              'step and comparing Commit/Rollback replies. Concurrent leg: the store module is driven through the message '
-             'bus by several client goroutines; start/end of each request are logged and TLC searches a linearisation of '
-             'the recorded history in the trace specification.',
+             'bus by several client goroutines (own updates, shared committed roots; then committed updates are computed again at '
+             'other heights and committed while the other clients read the committed root, free-running and with the commit held at '
+             'a gate inside Tree.Save); start/end of each request are logged and TLC searches a linearisation of the recorded '
+             'history in the trace specification; a crash of the store process ends the trace with an event no action matches.',
         note=_COMMON_NOTE + ' Concurrent leg: clients only commit / roll back their own pending updates and read roots whose '
              'commit has returned; goroutine schedules are sampled.',
     ),
@@ -144,13 +146,13 @@ def run_c01(ctx, q, b, stats):
     # the in-memory node cache, each store in a process of its own; Reopen is a process restart
     keep = os.path.join(ctx.scratch, 'keep')
     sub = big[:len(big) // 4] if q else big[:len(big) // 10]
-    ctx.replay(b, sub, opts=dict(cfgs='plain', ccfgs='memtree+val', kcfgs='prefix+memtree', api='store', salt=3, stats=stats, keepdir=keep), par=6, count=False, timeout=7200)
+    ctx.replay(b, sub, opts=dict(cfgs='plain', ccfgs='memtree+val', kcfgs='prefix+memtree', api='store', salt=3, stats=stats, keepdir=keep, histdir=vlib.REPLAYS), par=6, count=False, timeout=7200)
     if not q:
         for sd in range(1, 3):
             more = ctx.tlc_sim('StateStore_MC', 'StateStore_GenC01.cfg', num=n, depth=26, seed=ctx.seed * 100 + sd, timeout=7200)
             ctx.replay(b, more, opts=dict(cfgs='plain/prefix', api='mix', salt=3 + sd, stats=stats, shape=1), par=8, timeout=7200)
             ctx.replay(b, more[:len(more) // 10], opts=dict(cfgs='prefix', ccfgs='memtree', kcfgs='prefix+memtree+val/prune+memtree', api='tree', salt=6 + sd,
-                                                           restart='kill', stats=stats, keepdir=keep), par=6, count=False, timeout=7200)
+                                                           restart='kill', stats=stats, keepdir=keep, histdir=vlib.REPLAYS), par=6, count=False, timeout=7200)
     # recordings over a large alphabet
     ctx.validate_recording(b, 'StateStore_Trace', 'StateStore_Trace.cfg', recorder='seq',
                            opts=dict(n=3 if q else 10, keys=64, vals=4, maxbatch=40, depth=40 if q else 80, mode='direct', cfgs='plain/prefix'),
@@ -183,7 +185,7 @@ def run_c02(ctx, q, b, stats):
     # growing) and fresh ones (ccfgs: a new process and database per behaviour).
     PFX = ['prefix+memtree', 'prefix+memtree+val', 'prune+memtree', 'prune+memtree+val', 'mvcc+memtree+val', 'memtree', 'memtree+val']
     ctx.replay(b, allb, opts=dict(cfgs='/'.join(LOCAL_PLAIN + ['memtree+val']), kcfgs='prefix+memtree/prune+memtree+val', api='store',
-                                 salt=1, variants=2, stats=stats, keepdir=keep), par=8, timeout=7200)
+                                 salt=1, variants=2, stats=stats, keepdir=keep, histdir=vlib.REPLAYS), par=8, timeout=7200)
     used = set(LOCAL_PLAIN + ['memtree+val', 'prefix+memtree', 'prune+memtree+val'])
     nround = 2 if q else 7
     per = 40 if q else 120
@@ -196,7 +198,7 @@ def run_c02(ctx, q, b, stats):
         k = (i * len(sim)) // nround
         bs = (sim[k:] + sim[:k])[:per]
         ctx.replay(b, bs, opts=dict(cfgs='/'.join(LOCAL_PLAIN + [mem]), kcfgs='/'.join(kc), ccfgs='/'.join(cc), api='store', salt=1,
-                                     variants=2, stats=stats, keepdir=keep, restart='kill' if i % 2 else 'close'),
+                                     variants=2, stats=stats, keepdir=keep, histdir=vlib.REPLAYS, restart='kill' if i % 2 else 'close'),
                    par=6, count=(i == 0), timeout=7200)
     ctx.extra['configurations_exercised'] = sorted(used)
     _selftest_replay(ctx, b, sim, dict(cfgs='plain/prefix'))
@@ -221,26 +223,26 @@ def run_c04(ctx, q, b, stats):
     ctx.replay(b, allb, opts=dict(cfgs='plain/prefix', api='mix', salt=1, stats=stats), par=8, timeout=7200)
     keep = os.path.join(ctx.scratch, 'keep')
     sub = allb[::16] if q else allb[::40]
-    ctx.replay(b, sub, opts=dict(cfgs='prefix', ccfgs='memtree+val', kcfgs='prefix+memtree', api='store', salt=2, restart='kill', stats=stats, keepdir=keep),
+    ctx.replay(b, sub, opts=dict(cfgs='prefix', ccfgs='memtree+val', kcfgs='prefix+memtree', api='store', salt=2, restart='kill', stats=stats, keepdir=keep, histdir=vlib.REPLAYS),
                par=6, count=False, timeout=7200)
     _selftest_replay(ctx, b, allb, dict(cfgs='plain'))
     n = 120 if q else 1200
     sim = ctx.tlc_sim('StateStore_MC', 'StateStore_GenC04.cfg', num=n, depth=20, timeout=7200)
     ctx.replay(b, sim, opts=dict(cfgs='plain/prefix/prune', api='mix', salt=3, stats=stats), par=8, timeout=7200)
     ctx.replay(b, sim[:len(sim) // 4] if q else sim[:len(sim) // 8], opts=dict(cfgs='plain', ccfgs='prefix+memtree/memtree+val', kcfgs='prune+memtree+val', api='mix', salt=4,
-                                                                    stats=stats, keepdir=keep), par=6, count=False, timeout=7200)
+                                                                    stats=stats, keepdir=keep, histdir=vlib.REPLAYS), par=6, count=False, timeout=7200)
     if not q:
         for sd in range(1, 3):
             more = ctx.tlc_sim('StateStore_MC', 'StateStore_GenC04.cfg', num=n, depth=20, seed=ctx.seed * 100 + sd, timeout=7200)
             ctx.replay(b, more, opts=dict(cfgs='plain/prefix', api='mix', salt=4 + sd, stats=stats), par=8, timeout=7200)
             ctx.replay(b, more[:len(more) // 10], opts=dict(cfgs='prune', ccfgs='prune+memtree+val', kcfgs='memtree/prefix+memtree+val', api='store', salt=7 + sd,
-                                                           restart='kill', stats=stats, keepdir=keep), par=6, count=False, timeout=7200)
+                                                           restart='kill', stats=stats, keepdir=keep, histdir=vlib.REPLAYS), par=6, count=False, timeout=7200)
     # sequential recordings with pending updates, then the concurrent leg
     ctx.validate_recording(b, 'StateStore_Trace', 'StateStore_Trace.cfg', recorder='seq',
                            opts=dict(n=3 if q else 10, keys=48, vals=3, maxbatch=24, depth=50 if q else 90, mode='pending', cfgs='plain/prefix'),
                            selftest=True, timeout=7200)
     ctx.validate_recording(b, 'StateStore_Trace', 'StateStore_TraceBus.cfg', recorder='bus', dfs=True,
-                           opts=dict(n=2 if q else 6, clients=4 if q else 8, reqs=25 if q else 60, keys=6, maxbatch=4,
+                           opts=dict(n=2 if q else 6, clients=4 if q else 8, reqs=25 if q else 60, keys=6, maxbatch=4, rounds=8 if q else 20, maxreads=60 if q else 25,
                                      cfgs='plain/prefix/memtree+val' if not q else 'plain/prefix'),
                            selftest=True, timeout=7200)
 
